@@ -282,7 +282,7 @@ def layout_ok_text(text):
 def gen_jobs(ctx):
     rng = ctx.rng
     jobs = []
-    ndocs = ctx.n(70, 1200)
+    ndocs = ctx.n(110, 1500)
     K = ctx.n(4, 8)
     for i in range(ndocs):
         doc = gen_doc(rng)
